@@ -333,7 +333,8 @@ impl PtSide {
                 let data = bytes(op, "data");
                 let len = data.len() as u32;
                 let mut r = VecR(data, 0);
-                match fs.write(&ctx, n.into(), F::Handle::from(h), &mut r, len, u(op, "off"), None, false, u(op, "flags") as u32, if op["kill"].as_bool().unwrap_or(false) { 4 } else { 0 }) {
+                match fs.write(&ctx, n.into(), F::Handle::from(h), &mut r, len, u(op, "off"), None, op["cache"].as_bool().unwrap_or(false), u(op, "flags") as u32,
+                               (if op["kill"].as_bool().unwrap_or(false) { 4 } else { 0 }) | (if op["cache"].as_bool().unwrap_or(false) { 1 } else { 0 })) {
                     Ok(k) => StepRes::ok().set("n", json!(k)),
                     Err(e) => fail(&e),
                 }
